@@ -333,4 +333,43 @@ MUTANTS = {
     "gridsearch_appends_to_previous_fit": {
         "props": ["C19"], "what": "GridSearch.fit keeps the predictors of a previous fit",
         "edits": [(GS, "        self.predictors_ = []\n", "        self.predictors_ = getattr(self, \"predictors_\", [])\n")]},
+    # ---------------------------------------------------------------- C20 rejections
+    "no_consistent_length_for_control_features": {
+        "props": ["C20"], "what": "control features are not length-checked against X in the shared validation",
+        "edits": [(IV, "        check_consistent_length(X, control_features)\n", "")]},
+    "binary_labels_not_enforced_in_fprp": {
+        "props": ["C20"], "what": "FalsePositiveRateParity does not enforce binary labels",
+        "edits": [(UP, """            enforce_binary_labels=True,
+            sensitive_features=sensitive_features,
+            control_features=control_features,
+        )
+
+        # The `where` clause is used to put `pd.nan` on all values where `Y!=0`.""", """            enforce_binary_labels=False,
+            sensitive_features=sensitive_features,
+            control_features=control_features,
+        )
+
+        # The `where` clause is used to put `pd.nan` on all values where `Y!=0`.""")]},
+    "degenerate_guard_only_positives": {
+        "props": ["C20"], "what": "degenerate-label guard only checks for missing positives",
+        "edits": [(TC, "    if n_positive == 0 or n_negative == 0:", "    if n_positive == 0:")]},
+    "duplicate_name_check_removed": {
+        "props": ["C20"], "what": "MetricFrame duplicate feature name check skipped for control features",
+        "edits": [(MF, "        if self._cf_names:\n            namelist = namelist + self._cf_names\n        for name in namelist:", "        for name in namelist:")]},
+    "ratio_check_only_nonpositive": {
+        "props": ["C20"], "what": "ratio_bound > 1 accepted",
+        "edits": [(UP, "            if not (0 < ratio_bound <= 1):", "            if not (0 < ratio_bound):")]},
+    "metricframe_no_length_check_on_predictions": {
+        "props": ["C20"], "what": "MetricFrame truncates y_pred to the length of y_true instead of checking",
+        "edits": [(MF, "        check_consistent_length(y_true, y_pred)\n\n        y_t = _convert_to_ndarray_and_squeeze(y_true)\n        y_p = _convert_to_ndarray_and_squeeze(y_pred)",
+                   "        y_t = _convert_to_ndarray_and_squeeze(y_true)\n        y_p = _convert_to_ndarray_and_squeeze(y_pred)[: len(y_t)]\n        if len(y_p) < len(y_t):\n            y_t = y_t[: len(y_p)]")]},
+    "series_name_int_accepted": {
+        "props": ["C20"], "what": "non-string Series names are converted with str() instead of rejected",
+        "edits": [(  "fairlearn/metrics/_group_feature.py", "                else:\n                    msg = _SERIES_NAME_NOT_STRING.format(", "                elif False:\n                    msg = _SERIES_NAME_NOT_STRING.format(")]},
+    "gridsearch_predict_no_fitted_check": {
+        "props": ["C20"], "what": "GridSearch.predict_proba lacks check_is_fitted (AttributeError instead of NotFittedError)",
+        "edits": [(GS, "        check_is_fitted(self)\n        return self.predictors_[self.best_idx_].predict_proba(X)", "        return self.predictors_[self.best_idx_].predict_proba(X)")]},
+    "to_objective_table_extended": {
+        "props": ["C20"], "what": "equalized odds silently accepts selection_rate as objective",
+        "edits": [(TO, 'OBJECTIVES_FOR_EQUALIZED_ODDS = {\n    "accuracy_score",', 'OBJECTIVES_FOR_EQUALIZED_ODDS = {\n    "selection_rate",\n    "accuracy_score",')]},
 }
